@@ -2,23 +2,22 @@
  'kind': 'proof', 'mode': 'legacy',
  'functions': ['ring_fixup_head', 'ring_fixup_tail'],
  'clauses': 'for every size >= 2 and EVERY 32-bit value of the index (not only valid ones): the loop terminates, the index ends in [0,size), never grows, an index already in range is left alone, an index in [size, 2*size) (all that ring_move_head/tail with bias <= size can produce) is reduced by exactly size; the other index and size are not written',
- 'inject': [{'file': 'igris/datastruct/ring.h', 'func': 'ring_fixup_head', 'loop': 0, 'expect': 'r->head >= r->size',
+ 'inject': [{'file': 'igris/datastruct/ring.h', 'func': 'ring_fixup_head', 'loop': 0, 'expect': 'r->head',
              'assigns': 'r->head',
-             'invariants': ['r->head <= g_idx0',
-                            'g_idx0 < r->size ==> r->head == g_idx0',
-                            '(g_idx0 >= r->size && g_idx0 - r->size < r->size) ==> (r->head == g_idx0 || r->head == g_idx0 - r->size)'],
+             'invariants': ['r->head <= __CPROVER_loop_entry(r->head)',
+                            '__CPROVER_loop_entry(r->head) < r->size ==> r->head == __CPROVER_loop_entry(r->head)',
+                            '(__CPROVER_loop_entry(r->head) >= r->size && __CPROVER_loop_entry(r->head) - r->size < r->size) ==> (r->head == __CPROVER_loop_entry(r->head) || r->head == __CPROVER_loop_entry(r->head) - r->size)'],
              'decreases': 'r->head'},
-            {'file': 'igris/datastruct/ring.h', 'func': 'ring_fixup_tail', 'loop': 0, 'expect': 'r->tail >= r->size',
+            {'file': 'igris/datastruct/ring.h', 'func': 'ring_fixup_tail', 'loop': 0, 'expect': 'r->tail',
              'assigns': 'r->tail',
-             'invariants': ['r->tail <= g_idx0',
-                            'g_idx0 < r->size ==> r->tail == g_idx0',
-                            '(g_idx0 >= r->size && g_idx0 - r->size < r->size) ==> (r->tail == g_idx0 || r->tail == g_idx0 - r->size)'],
+             'invariants': ['r->tail <= __CPROVER_loop_entry(r->tail)',
+                            '__CPROVER_loop_entry(r->tail) < r->size ==> r->tail == __CPROVER_loop_entry(r->tail)',
+                            '(__CPROVER_loop_entry(r->tail) >= r->size && __CPROVER_loop_entry(r->tail) - r->size < r->size) ==> (r->tail == __CPROVER_loop_entry(r->tail) || r->tail == __CPROVER_loop_entry(r->tail) - r->size)'],
              'decreases': 'r->tail'}],
  'assumptions': ['size >= 2 (size 0 would make the fix-up loops spin forever)'],
  'witness': {'unwind': 8},
 } @*/
 #include "c03_ring.h"
-uint g_idx0; /* ghost: value of the index on entry */
 #include <igris/datastruct/ring.h>
 
 void harness(void)
@@ -34,14 +33,12 @@ void harness(void)
     struct ring_head r;
     r.size = size; r.head = head; r.tail = tail;
     if (which) {
-        g_idx0 = head;
         ring_fixup_head(&r);
         __CPROVER_assert(r.tail == tail && r.size == size, "fixup_head writes only head");
         __CPROVER_assert(r.head < size, "fixup_head: head ends in [0,size)");
         __CPROVER_assert(head >= size || r.head == head, "fixup_head leaves a valid head alone");
         __CPROVER_assert(!(head >= size && (ullong)head < 2 * (ullong)size) || r.head == head - size, "fixup_head: head in [size,2*size) is reduced by size");
     } else {
-        g_idx0 = tail;
         ring_fixup_tail(&r);
         __CPROVER_assert(r.head == head && r.size == size, "fixup_tail writes only tail");
         __CPROVER_assert(r.tail < size, "fixup_tail: tail ends in [0,size)");
